@@ -152,6 +152,10 @@ def grid(n: int, rng, sample: float):
                 lp["break_at"] = rng.randint(1, max(1, ln))
             elif r < 0.3 and ln:
                 lp["continue_at"] = rng.randint(1, max(1, ln))
+            elif r < 0.42:
+                # a body without output, the loop alone inside another block: the else block is all the output there is
+                lp["quiet"] = rng.choice(["", " ", "{% assign zz = i %}", "{% continue %}", "\n  {% assign zz = forloop.index %}\n"])
+                lp["wrap"] = rng.choice([None, "if", "unless", "case", "for1", "else", "capture"])
             yield {"loops": [lp], "data": V.enc(data), "ss": ss, "async": rng.random() < 0.1}
         # tablerow: every cols value
         for cols, lim, off in itertools.product([None] + list(range(1, ln + 3)), [None, 0, 1, ln, ln + 2, -1], [None, 0, 1, ln + 1, -2]):
